@@ -642,6 +642,8 @@ def run_op_(roots, i, o, enc):
         setattr(x, o[1], set(o[2]))
     elif k == 'setattrdict':
         setattr(x, o[1], {a: b for a, b in o[2]})
+    elif k == 'setattrdictlists':
+        setattr(x, o[1], {a: list(b) for a, b in o[2]})
     elif k == 'strict':
         x.strict = o[1]
     elif k == 'setfrom':             # whole-series assignment whose VALUE is ANOTHER object's array (same dtype): b.X = a.X
@@ -826,6 +828,8 @@ def c_ops(case, ev, out, enc, kinds):
         return ['(OSetAttrList %s %s)' % (cz(enc.code(o[1])), czl(enc.code(v) for v in o[2]))]
     if k == 'setattrnested':
         return ['(OSetAttrNested %s %s)' % (cz(enc.code(o[1])), lib.clist(czl(enc.code(v) for v in vs) for vs in o[2]))]
+    if k == 'setattrdictlists':
+        return ['(OSetAttrDictOfLists %s %s)' % (cz(enc.code(o[1])), lib.clist('(%s, %s)' % (cz(enc.code(a)), czl(enc.code(v) for v in b)) for a, b in o[2]))]
     if k == 'setattrdict':
         return ['(OSetAttrDict %s %s)' % (cz(enc.code(o[1])), cpairs((enc.code(a), enc.code(b)) for a, b in o[2]))]
     if k == 'setattrset':
@@ -1576,7 +1580,8 @@ def gen_op(rng, s, fresh_float, alias, tracer):
         return rng.choice([['setattrlist', rng.choice(ATTR_NAMES), [1, 2]],
                            ['setattrnested', rng.choice(ATTR_NAMES), [[1, 2], [3], []]],
                            ['setattrset', rng.choice(ATTR_NAMES), [1, 2, 'a']],
-                           ['setattrdict', rng.choice(ATTR_NAMES), [['p', 1], ['q', 'x']]]])
+                           ['setattrdict', rng.choice(ATTR_NAMES), [['p', 1], ['q', 'x']]],
+                           ['setattrdictlists', rng.choice(ATTR_NAMES), [['p', [1, 2]], ['q', []]]]])
     if q < 0.60:
         return ['strict', rng.random() < 0.5]
     if s.kind == 'model':
